@@ -41,6 +41,12 @@ def Core : SaExpr → Bool
   | .clist op cs group _ _ => coreList op && group && decide (2 ≤ cs.length) && CoreList cs
   | .unary op e _ => coreUn op && Core e
   | .grouping e => Core e
+  | .subq _ _ => true
+  | .func _ args _ => !args.isEmpty && CoreList args
+  | .cast e _ => Core e
+  | .case_ v ws e _ =>
+    (isAbsent v || Core v) && CoreList ws && decide (2 ≤ ws.length) && decide (ws.length % 2 = 0) &&
+      (isAbsent e || Core e)
   | _ => false
 def CoreList : List SaExpr → Bool
   | [] => true
@@ -55,10 +61,16 @@ def WG : SaExpr → Bool
   | .clist op cs _ _ _ => WGList op cs
   | .unary op e _ => !wouldGroup (some op) e && WG e
   | .grouping e => WG e
+  | .func _ args _ => WGAll args
+  | .cast e _ => WG e
+  | .case_ v ws e _ => WG v && WGAll ws && WG e
   | _ => true
 def WGList (op : Op) : List SaExpr → Bool
   | [] => true
   | e :: es => !wouldGroup (some op) e && WG e && WGList op es
+def WGAll : List SaExpr → Bool
+  | [] => true
+  | e :: es => WG e && WGAll es
 end
 
 /-- the root operator (if any) has precedence above `p` -/
@@ -89,8 +101,24 @@ def infBase (g : Grammar) (op : Op) : Nat :=
 
 def preBase (g : Grammar) (op : Op) : Nat := (g.prefixBp (symOf op)).getD 0
 
+def sepSyms : List Sym := [.comma, .as_, .when_, .then_, .else_]
+
+/-- the separators inside brackets (`,` `AS` `WHEN` `THEN` `ELSE`) share one left-associative
+    level, have no ternary form, and every operator of the fragment binds tighter -/
+def sepCompat (g : Grammar) : Bool :=
+  match g.infixBp .comma with
+  | none => false
+  | some (sl, sr) =>
+    decide (sl < sr) &&
+    (sepSyms.all fun s => g.infixBp s == some (sl, sr) && (g.ternBp s).isNone) &&
+    (coreInfix.all fun o => decide (sr ≤ infBase g o)) &&
+    (corePrefix.all fun u => decide (sr ≤ preBase g u)) &&
+    (coreInfix.all fun o => decide (opSmallest - 1 < precOf o)) &&
+    (corePrefix.all fun u => decide (opSmallest - 1 < precOf u))
+
 /-- compatibility of the regenerated precedence numbers with grammar `g`, on the fragment -/
 def coreCompat (g : Grammar) : Bool :=
+  sepCompat g &&
   -- every symbol is an operator of the grammar, without ternary form
   (coreInfix.all fun o => (g.infixBp (symOf o)).isSome && (g.ternBp (symOf o)).isNone &&
       (precedence o).isSome) &&
@@ -170,11 +198,40 @@ structure Compat (g : Grammar) : Prop where
     G.assocSym (symOf o) = true ∧ ∃ lbp rbp, g.infixBp (symOf o) = some (lbp, rbp) ∧ lbp < rbp
   assoc_nsp : ∀ o ∈ coreInfix, G.assocSym (symOf o) = true → naturalSelfPrecedent o = true
   pre_not_nsp : ∀ u ∈ corePrefix, naturalSelfPrecedent u = false
+  sep : ∃ sl sr, sl < sr ∧
+    (∀ s, s.isSep = true → g.infixBp s = some (sl, sr) ∧ g.ternBp s = none) ∧
+    (∀ o ∈ coreInfix, sr ≤ infBase g o) ∧ (∀ u ∈ corePrefix, sr ≤ preBase g u)
+  bottom : (∀ o ∈ coreInfix, opSmallest - 1 < precOf o) ∧ (∀ u ∈ corePrefix, opSmallest - 1 < precOf u)
+
+theorem sep_of_bool (g : Grammar) (h : sepCompat g = true) :
+    (∃ sl sr, sl < sr ∧
+      (∀ s, s.isSep = true → g.infixBp s = some (sl, sr) ∧ g.ternBp s = none) ∧
+      (∀ o ∈ coreInfix, sr ≤ infBase g o) ∧ (∀ u ∈ corePrefix, sr ≤ preBase g u)) ∧
+    ((∀ o ∈ coreInfix, opSmallest - 1 < precOf o) ∧ (∀ u ∈ corePrefix, opSmallest - 1 < precOf u)) := by
+  unfold sepCompat at h
+  cases hb : g.infixBp .comma with
+  | none => simp [hb] at h
+  | some p =>
+    obtain ⟨sl, sr⟩ := p
+    simp only [hb, Bool.and_eq_true, List.all_eq_true, decide_eq_true_eq, beq_iff_eq] at h
+    obtain ⟨⟨⟨⟨⟨h1, h2⟩, h3⟩, h4⟩, h5⟩, h6⟩ := h
+    refine ⟨⟨sl, sr, h1, ?_, h3, h4⟩, h5, h6⟩
+    intro s hs
+    have hm : s ∈ sepSyms := by cases s <;> simp [Sym.isSep] at hs <;> simp [sepSyms]
+    have := h2 s hm
+    refine ⟨this.1, ?_⟩
+    cases hq : g.ternBp s with
+    | none => rfl
+    | some q => have := this.2; simp [hq] at this
 
 theorem compat_of_bool (g : Grammar) (h : coreCompat g = true) : Compat g := by
+  have hsep : sepCompat g = true := by
+    simp only [coreCompat, Bool.and_eq_true] at h
+    exact h.1.1.1.1.1.1.1
+  obtain ⟨hS, hB⟩ := sep_of_bool g hsep
   simp only [coreCompat, Bool.and_eq_true, List.all_eq_true] at h
-  obtain ⟨⟨⟨⟨⟨⟨h1, h2⟩, h3⟩, h4⟩, h5⟩, h6⟩, h7⟩ := h
-  refine ⟨?_, ?_, ?_, ?_, ?_, ?_, ?_, ?_, ?_⟩
+  obtain ⟨⟨⟨⟨⟨⟨⟨_, h1⟩, h2⟩, h3⟩, h4⟩, h5⟩, h6⟩, h7⟩ := h
+  refine ⟨?_, ?_, ?_, ?_, ?_, ?_, ?_, ?_, ?_, hS, hB⟩
   · intro o ho
     have := h1 o ho
     try simp only [Bool.and_eq_true] at this
@@ -367,10 +424,10 @@ theorem above_of_WG (hprec : ∀ o, o ∈ coreInfix ∨ o ∈ corePrefix → (pr
     simp only [above, Bool.and_eq_true, decide_eq_true_eq]
     exact ⟨hr, aboveList_of_WG hprec op cs p hs hc.2 hw hr⟩
   | .asbool _ _ _, _, hc, _, _ => by simp [Core] at hc
-  | .case_ _ _ _ _, _, hc, _, _ => by simp [Core] at hc
-  | .cast _ _, _, hc, _, _ => by simp [Core] at hc
-  | .func _ _ _, _, hc, _, _ => by simp [Core] at hc
-  | .subq _ _, _, hc, _, _ => by simp [Core] at hc
+  | .case_ _ _ _ _, _, _, _, _ => rfl
+  | .cast _ _, _, _, _, _ => rfl
+  | .func _ _ _, _, _, _, _ => rfl
+  | .subq _ _, _, _, _, _ => rfl
   | .inlist _ _ _, _, hc, _, _ => by simp [Core] at hc
   | .inrows _ _ _, _, hc, _, _ => by simp [Core] at hc
   | .tuple_ _, _, hc, _, _ => by simp [Core] at hc
@@ -400,6 +457,67 @@ namespace SaVerif.Expr
 open SaVerif.Expr.Gen SaVerif.Pratt
 
 /-! ### tightness of the rendering -/
+
+theorem tight_caseG (g : Grammar) (k : Nat) (v : Option G) (ws : List G) (e : Option G) :
+    tight g k (caseG v ws e) = true := by
+  unfold caseG
+  cases caseBody v ws with
+  | none => rfl
+  | some p => obtain ⟨kk, b⟩ := p; cases e <;> rfl
+
+theorem allExp_caseG (P : Sym → Bool) (v : Option G) (ws : List G) (e : Option G) :
+    allExp P (caseG v ws e) = true := by
+  unfold caseG
+  cases caseBody v ws with
+  | none => rfl
+  | some p => obtain ⟨kk, b⟩ := p; cases e <;> rfl
+
+theorem rootOp_none_of_not_grouped (e : SaExpr) (hc : Core e = true) (h : wouldGroup none e = false) :
+    rootOp e = none := by
+  cases e with
+  | binary op l r n esc ty => simp [wouldGroup, isPrecedent] at h
+  | clist op cs gr bl ty =>
+    simp only [Core, Bool.and_eq_true, decide_eq_true_eq] at hc
+    obtain ⟨⟨⟨_, hgr⟩, hlen⟩, _⟩ := hc
+    cases cs with
+    | nil => simp at hlen
+    | cons c cs => simp [wouldGroup, isPrecedent, hgr] at h
+  | unary op x ty => simp [wouldGroup, isPrecedent] at h
+  | _ => rfl
+
+/-- an element without root operator renders to an atom or a bracket: tight at every level -/
+theorem tight_of_no_rootOp (g : Grammar) (d : Dialect) (k : Nat) :
+    ∀ c : SaExpr, Core c = true → rootOp c = none → tight g k (render d true c) = true
+  | .col _ _, _, _ => rfl
+  | .bind _ _, _, _ => rfl
+  | .null, _, _ => rfl
+  | .true_, _, _ => rfl
+  | .false_, _, _ => rfl
+  | .grouping _, _, _ => by rw [render_grouping]; rfl
+  | .subq _ _, _, _ => rfl
+  | .func _ _ _, _, _ => by rw [render_func]; rfl
+  | .case_ _ _ _ _, _, _ => by rw [render_case]; exact tight_caseG g k _ _ _
+  | .cast e ty, hc, _ => by
+    rw [render_cast]
+    cases castName d ty with
+    | some n => rfl
+    | none =>
+      by_cases hg : wouldGroup none e = true
+      · simp [castG, hg, tight]
+      · have hg' : wouldGroup none e = false := by simpa using hg
+        simp only [castG, hg', Bool.false_eq_true, if_false]
+        have hce : Core e = true := by simpa [Core] using hc
+        exact tight_of_no_rootOp g d k e hce (rootOp_none_of_not_grouped e hce hg')
+  | .binary _ _ _ _ _ _, _, h => by simp [rootOp] at h
+  | .clist _ _ _ _ _, _, h => by simp [rootOp] at h
+  | .unary _ _ _, _, h => by simp [rootOp] at h
+  | .asbool _ _ _, hc, _ => by simp [Core] at hc
+  | .inlist _ _ _, hc, _ => by simp [Core] at hc
+  | .inrows _ _ _, hc, _ => by simp [Core] at hc
+  | .tuple_ _, hc, _ => by simp [Core] at hc
+  | .litcol _ _, hc, _ => by simp [Core] at hc
+  | .ilikeOperand _, hc, _ => by simp [Core] at hc
+  | .absent, hc, _ => by simp [Core] at hc
 
 theorem tight_chainFrom (g : Grammar) (k : Nat) (s : Sym) (t : String) (lbp rbp : Nat)
     (hb : g.infixBp s = some (lbp, rbp)) (hl : k ≤ lbp) (hr : k ≤ rbp) :
@@ -474,10 +592,10 @@ theorem tight_render (g : Grammar) (C : Compat g) (d : Dialect) (k : Nat) (p : I
       exact tight_chainFrom g k _ _ lbp rbp hb h1 h2 xs x (hall x (by simp))
         (fun y hy => hall y (by simp [hy]))
   | .asbool _ _ _, hc, _ => by simp [Core] at hc
-  | .case_ _ _ _ _, hc, _ => by simp [Core] at hc
-  | .cast _ _, hc, _ => by simp [Core] at hc
-  | .func _ _ _, hc, _ => by simp [Core] at hc
-  | .subq _ _, hc, _ => by simp [Core] at hc
+  | .case_ v ws e ty, hc, _ => tight_of_no_rootOp g d k _ hc rfl
+  | .cast e ty, hc, _ => tight_of_no_rootOp g d k _ hc rfl
+  | .func n args ty, hc, _ => tight_of_no_rootOp g d k _ hc rfl
+  | .subq _ _, _, _ => rfl
   | .inlist _ _ _, hc, _ => by simp [Core] at hc
   | .inrows _ _ _, hc, _ => by simp [Core] at hc
   | .tuple_ _, hc, _ => by simp [Core] at hc
@@ -536,10 +654,19 @@ theorem allExp_render (d : Dialect) (P : Sym → Bool)
       exact allExp_chainFrom P _ _ (hP op (coreList_mem hop)) xs x (hall x (by simp))
         (fun y hy => hall y (by simp [hy]))
   | .asbool _ _ _, hc => by simp [Core] at hc
-  | .case_ _ _ _ _, hc => by simp [Core] at hc
-  | .cast _ _, hc => by simp [Core] at hc
-  | .func _ _ _, hc => by simp [Core] at hc
-  | .subq _ _, hc => by simp [Core] at hc
+  | .case_ v ws e ty, _ => by rw [render_case]; exact allExp_caseG P _ _ _
+  | .cast e ty, hc => by
+    rw [render_cast]
+    cases castName d ty with
+    | some n => rfl
+    | none =>
+      by_cases hg : wouldGroup none e = true
+      · simp [castG, hg, allExp]
+      · have hg' : wouldGroup none e = false := by simpa using hg
+        simp only [castG, hg', Bool.false_eq_true, if_false]
+        exact allExp_render d P hP hP' e (by simpa [Core] using hc)
+  | .func n args ty, _ => by rw [render_func]; rfl
+  | .subq _ _, _ => rfl
   | .inlist _ _ _, hc => by simp [Core] at hc
   | .inrows _ _ _, hc => by simp [Core] at hc
   | .tuple_ _, hc => by simp [Core] at hc
@@ -577,10 +704,6 @@ theorem rootIs_chainFrom (s : Sym) (t : String) :
   | x :: gs, acc, _ => by
     simp only [chainFrom]
     exact rootIs_chainFrom s t gs _ (Or.inr (by simp [rootIs]))
-
-theorem tight_of_no_rootOp (g : Grammar) (d : Dialect) (k : Nat) (c : SaExpr) (hc : Core c = true)
-    (h : rootOp c = none) : tight g k (render d true c) = true := by
-  cases c <;> simp [rootOp] at h <;> first | rfl | (simp [Core] at hc) | (rw [render_grouping]; rfl)
 
 theorem rootIs_render_of_rootOp (d : Dialect) (op : Op) (c : SaExpr) (hc : Core c = true)
     (hr : rootOp c = some op) (hi : op ∈ coreInfix) : rootIs (symOf op) (render d true c) = true := by
@@ -713,6 +836,153 @@ theorem ok_chainFrom (g : Grammar) (s : Sym) (t : String) (lbp rbp : Nat)
     · exact Or.inl (by simp [rootIs])
     · intro y hy; exact hx y (by simp [hy])
 
+/-! ### separator chains inside brackets -/
+
+theorem sep_not_assoc (s : Sym) (h : s.isSep = true) : G.assocSym s = false := by
+  cases s <;> simp [Sym.isSep] at h <;> rfl
+
+/-- facts about the separators of a grammar (from `Compat.sep`) -/
+structure SepFacts (g : Grammar) (sl sr : Nat) : Prop where
+  lt : sl < sr
+  bp : ∀ s, s.isSep = true → g.infixBp s = some (sl, sr) ∧ g.ternBp s = none
+
+/-- an operand of a separator: ok, binds tighter than the separators, swallows no middle symbol -/
+def SepOpnd (g : Grammar) (sr : Nat) (x : G) : Prop :=
+  ok g x = true ∧ tight g sr x = true ∧ ∀ s, s.isSep = true → allExp (notMidOf g (some s)) x = true
+
+/-- the accumulated left part of a separator chain -/
+def SepAcc (g : Grammar) (sl : Nat) (acc : G) : Prop :=
+  ok g acc = true ∧ ∀ s, s.isSep = true →
+    ((tight g (sl + 1) acc = true ∧ allExp (notMidOf g (some s)) acc = true) ∨ sepLeft g s sl acc = true)
+
+theorem SepAcc_of_opnd {g : Grammar} {sl sr : Nat} (F : SepFacts g sl sr) {x : G} (h : SepOpnd g sr x) :
+    SepAcc g sl x :=
+  ⟨h.1, fun s hs => Or.inl ⟨tight_mono g (by have := F.lt; omega) x h.2.1, h.2.2 s hs⟩⟩
+
+theorem SepAcc_step {g : Grammar} {sl sr : Nat} (F : SepFacts g sl sr) {acc x : G} (s : Sym) (t : String)
+    (hs : s.isSep = true) (ha : SepAcc g sl acc) (hx : SepOpnd g sr x) :
+    SepAcc g sl (G.inf s t acc x) := by
+  obtain ⟨hb, hq⟩ := F.bp s hs
+  refine ⟨?_, ?_⟩
+  · simp only [ok, hb, sep_not_assoc s hs, Bool.false_eq_true, if_false, ha.1, hx.1, hq, hx.2.1,
+      Bool.true_and, Bool.and_true, Bool.and_eq_true, Bool.or_eq_true]
+    rcases ha.2 s hs with h | h
+    · exact Or.inl h
+    · exact Or.inr h
+  · intro s' hs'
+    right
+    have hlt := F.lt
+    simp only [sepLeft, hs', hs, sep_not_assoc s hs, hb, hq, Bool.not_false, Bool.true_and,
+      Option.isNone_none, Bool.and_eq_true, decide_eq_true_eq]
+    exact ⟨⟨⟨hlt, trivial⟩, tight_mono g (by omega) x hx.2.1⟩, hx.2.2 s' hs'⟩
+
+theorem SepAcc_chainFrom {g : Grammar} {sl sr : Nat} (F : SepFacts g sl sr) (s : Sym) (t : String)
+    (hs : s.isSep = true) : ∀ (gs : List G) (acc : G), SepAcc g sl acc →
+      (∀ x ∈ gs, SepOpnd g sr x) → SepAcc g sl (chainFrom s t acc gs)
+  | [], acc, ha, _ => by simpa [chainFrom] using ha
+  | x :: gs, acc, ha, hx => by
+    simp only [chainFrom]
+    exact SepAcc_chainFrom F s t hs gs _ (SepAcc_step F s t hs ha (hx x (by simp)))
+      (fun y hy => hx y (by simp [hy]))
+
+theorem SepAcc_whenChain {g : Grammar} {sl sr : Nat} (F : SepFacts g sl sr) :
+    ∀ (n : Nat) (gs : List G) (acc : G), gs.length ≤ n → SepAcc g sl acc →
+      (∀ x ∈ gs, SepOpnd g sr x) → SepAcc g sl (whenChain acc gs)
+  | 0, gs, acc, hn, ha, _ => by
+    have : gs = [] := List.eq_nil_of_length_eq_zero (by omega)
+    subst this
+    simpa [whenChain] using ha
+  | n + 1, [], acc, _, ha, _ => by simpa [whenChain] using ha
+  | n + 1, [c], acc, _, ha, _ => by simpa [whenChain] using ha
+  | n + 1, c :: r :: rest, acc, hn, ha, hx => by
+    simp only [whenChain]
+    apply SepAcc_whenChain F n rest _ (by simp at hn; omega)
+    · exact SepAcc_step F .then_ " THEN " rfl
+        (SepAcc_step F .when_ " WHEN " rfl ha (hx c (by simp))) (hx r (by simp))
+    · intro y hy; exact hx y (by simp [hy])
+
+theorem ok_chain_comma {g : Grammar} {sl sr : Nat} (F : SepFacts g sl sr) (gs : List G)
+    (h : ∀ x ∈ gs, SepOpnd g sr x) : ok g (chain .comma ", " gs) = true := by
+  cases gs with
+  | nil => rfl
+  | cons x xs =>
+    simp only [chain]
+    exact (SepAcc_chainFrom F .comma ", " rfl xs x (SepAcc_of_opnd F (h x (by simp)))
+      (fun y hy => h y (by simp [hy]))).1
+
+theorem ok_caseG {g : Grammar} {sl sr : Nat} (F : SepFacts g sl sr) (v : Option G) (ws : List G)
+    (e : Option G) (hv : ∀ x, v = some x → SepOpnd g sr x) (hw : ∀ x ∈ ws, SepOpnd g sr x)
+    (he : ∀ x, e = some x → SepOpnd g sr x) : ok g (caseG v ws e) = true := by
+  have key : ∀ (k : Bracket) (b : G), SepAcc g sl b → ok g (caseEnd k b e) = true := by
+    intro k b hb
+    cases e with
+    | none => simpa [caseEnd, ok] using hb.1
+    | some eg =>
+      simp only [caseEnd, ok]
+      exact (SepAcc_step F .else_ " ELSE " rfl hb (he eg rfl)).1
+  unfold caseG
+  cases v with
+  | none =>
+    cases ws with
+    | nil => rfl
+    | cons c ws =>
+      cases ws with
+      | nil => rfl
+      | cons r rest =>
+        simp only [caseBody]
+        apply key
+        apply SepAcc_whenChain F rest.length rest _ (Nat.le_refl _)
+        · exact SepAcc_step F .then_ " THEN " rfl (SepAcc_of_opnd F (hw c (by simp))) (hw r (by simp))
+        · intro y hy; exact hw y (by simp [hy])
+  | some vg =>
+    simp only [caseBody]
+    apply key
+    exact SepAcc_whenChain F ws.length ws _ (Nat.le_refl _) (SepAcc_of_opnd F (hv vg rfl)) hw
+
+theorem ok_castG {g : Grammar} {sl sr : Nat} (F : SepFacts g sl sr) (name : Option String) (grp : Bool)
+    (x : G) (hx : SepOpnd g sr x) : ok g (castG name grp x) = true := by
+  unfold castG
+  cases name with
+  | some n =>
+    simp only [ok]
+    have hat : SepOpnd g sr (opaqueG n) := ⟨rfl, rfl, fun _ _ => rfl⟩
+    exact (SepAcc_step F .as_ " AS " rfl (SepAcc_of_opnd F hx) hat).1
+  | none =>
+    cases grp with
+    | true => simpa [ok] using hx.1
+    | false => simpa using hx.1
+
+theorem rootOp_mem {c : SaExpr} {cop : Op} (hc : Core c = true) (h : rootOp c = some cop) :
+    cop ∈ coreInfix ∨ cop ∈ corePrefix := by
+  cases c <;> simp [rootOp] at h <;> subst h <;> simp only [Core, Bool.and_eq_true] at hc
+  · exact Or.inl (coreBin_mem hc.1.1.1)
+  · exact Or.inl (coreList_mem hc.1.1.1)
+  · exact Or.inr (coreUn_mem hc.1)
+
+/-- every operator of a well grouped core element lies above the bottom of the precedence scale -/
+theorem above_bottom (g : Grammar) (C : Compat g) (c : SaExpr) (hc : Core c = true) (hw : WG c = true) :
+    above (opSmallest - 1) c = true := by
+  apply above_of_WG (precs g C) c _ hc hw
+  apply rootAbove_of_rootOp
+  intro cop h
+  rcases rootOp_mem hc h with hm | hm
+  · exact C.bottom.1 cop hm
+  · exact C.bottom.2 cop hm
+
+/-- the rendering of any well grouped core element is a valid operand of a separator -/
+theorem sepOpnd_render (g : Grammar) (C : Compat g) (hpt : prefixNoTern g) (d : Dialect) (sr : Nat)
+    (hi : ∀ o ∈ coreInfix, sr ≤ infBase g o) (hp : ∀ u ∈ corePrefix, sr ≤ preBase g u)
+    (c : SaExpr) (hc : Core c = true) (hw : WG c = true) (hok : ok g (render d true c) = true) :
+    SepOpnd g sr (render d true c) := by
+  refine ⟨hok, ?_, ?_⟩
+  · exact tight_render g C d sr (opSmallest - 1) (fun o ho _ => hi o ho) (fun u hu _ => hp u hu) c hc
+      (above_bottom g C c hc hw)
+  · intro s _
+    exact allExp_render d _ (notMid_core g C _) (fun u hu => by simp [notMidOf, hpt u hu]) c hc
+
+theorem optG_some {e : SaExpr} {g x : G} (h : optG e g = some x) : x = g ∧ isAbsent e = false := by
+  cases e <;> simp [optG] at h <;> exact ⟨h.symm, rfl⟩
+
 mutual
 /-- **ok_render**: every well grouped element of the fragment renders to an `ok` token tree -/
 theorem ok_render (g : Grammar) (C : Compat g) (hpt : prefixNoTern g) (d : Dialect) :
@@ -763,12 +1033,12 @@ theorem ok_render (g : Grammar) (C : Compat g) (hpt : prefixNoTern g) (d : Diale
         | false => rfl
         | true => exact absurd (C.nsp_assoc op hi hh).1 ha
       simp only [ok, hb, ha', Bool.false_eq_true, if_false, okl, okr, Bool.true_and, hq,
-        Bool.and_eq_true]
+        Bool.and_eq_true, Bool.or_eq_true]
       rcases chl with h | h
       · rw [hnn] at h; cases h.1
       · rcases chr with h' | h'
         · rw [hnn] at h'; cases h'.1
-        · exact ⟨⟨h.1, nml⟩, h'.2⟩
+        · exact ⟨Or.inl ⟨h.1, nml⟩, h'.2⟩
   | .unary op e ty, hc, hw => by
     simp only [Core, Bool.and_eq_true] at hc
     simp only [WG, Bool.and_eq_true, Bool.not_eq_true'] at hw
@@ -801,16 +1071,70 @@ theorem ok_render (g : Grammar) (C : Compat g) (hpt : prefixNoTern g) (d : Diale
       obtain ⟨hox, hcx⟩ := hall x (by simp)
       exact ok_chainFrom g _ _ lbp rbp hb ha hlt hq xs x hox hcx (fun y hy => hall y (by simp [hy]))
   | .asbool _ _ _, hc, _ => by simp [Core] at hc
-  | .case_ _ _ _ _, hc, _ => by simp [Core] at hc
-  | .cast _ _, hc, _ => by simp [Core] at hc
-  | .func _ _ _, hc, _ => by simp [Core] at hc
-  | .subq _ _, hc, _ => by simp [Core] at hc
+  | .subq _ _, _, _ => rfl
+  | .func n args ty, hc, hw => by
+    obtain ⟨sl, sr, hlt, hbp, hi, hp⟩ := C.sep
+    have F : SepFacts g sl sr := ⟨hlt, hbp⟩
+    have hca : CoreList args = true := by simp only [Core, Bool.and_eq_true] at hc; exact hc.2
+    have hwa : WGAll args = true := by simpa [WG] using hw
+    rw [render_func]
+    simp only [ok]
+    exact ok_chain_comma F _ (sepOpnd_renderAll g C hpt d sr hi hp args hca hwa)
+  | .cast e ty, hc, hw => by
+    obtain ⟨sl, sr, hlt, hbp, hi, hp⟩ := C.sep
+    have F : SepFacts g sl sr := ⟨hlt, hbp⟩
+    have hce : Core e = true := by simpa [Core] using hc
+    have hwe : WG e = true := by simpa [WG] using hw
+    rw [render_cast]
+    exact ok_castG F _ _ _ (sepOpnd_render g C hpt d sr hi hp e hce hwe (ok_render g C hpt d e hce hwe))
+  | .case_ v ws e ty, hc, hw => by
+    obtain ⟨sl, sr, hlt, hbp, hi, hp⟩ := C.sep
+    have F : SepFacts g sl sr := ⟨hlt, hbp⟩
+    simp only [Core, Bool.and_eq_true, Bool.or_eq_true] at hc
+    obtain ⟨⟨⟨⟨hcv, hcw⟩, _⟩, _⟩, hce⟩ := hc
+    simp only [WG, Bool.and_eq_true] at hw
+    obtain ⟨⟨hwv, hww⟩, hwe⟩ := hw
+    rw [render_case]
+    apply ok_caseG F
+    · intro x hx
+      obtain ⟨hxe, hna⟩ := optG_some hx
+      subst hxe
+      have hcv' : Core v = true := by
+        rcases hcv with h | h
+        · rw [hna] at h; cases h
+        · exact h
+      exact sepOpnd_render g C hpt d sr hi hp v hcv' hwv (ok_render g C hpt d v hcv' hwv)
+    · exact sepOpnd_renderAll g C hpt d sr hi hp ws hcw hww
+    · intro x hx
+      obtain ⟨hxe, hna⟩ := optG_some hx
+      subst hxe
+      have hce' : Core e = true := by
+        rcases hce with h | h
+        · rw [hna] at h; cases h
+        · exact h
+      exact sepOpnd_render g C hpt d sr hi hp e hce' hwe (ok_render g C hpt d e hce' hwe)
   | .inlist _ _ _, hc, _ => by simp [Core] at hc
   | .inrows _ _ _, hc, _ => by simp [Core] at hc
   | .tuple_ _, hc, _ => by simp [Core] at hc
   | .litcol _ _, hc, _ => by simp [Core] at hc
   | .ilikeOperand _, hc, _ => by simp [Core] at hc
   | .absent, hc, _ => by simp [Core] at hc
+
+theorem sepOpnd_renderAll (g : Grammar) (C : Compat g) (hpt : prefixNoTern g) (d : Dialect) (sr : Nat)
+    (hi : ∀ o ∈ coreInfix, sr ≤ infBase g o) (hp : ∀ u ∈ corePrefix, sr ≤ preBase g u) :
+    ∀ cs : List SaExpr, CoreList cs = true → WGAll cs = true →
+      ∀ x ∈ renderList d true cs, SepOpnd g sr x
+  | [], _, _ => by intro x hx; simp [renderList_nil] at hx
+  | c :: cs, hc, hw => by
+    simp only [CoreList, Bool.and_eq_true] at hc
+    simp only [WGAll, Bool.and_eq_true] at hw
+    intro x hx
+    rw [renderList_cons] at hx
+    simp only [List.mem_cons] at hx
+    rcases hx with hx | hx
+    · subst hx
+      exact sepOpnd_render g C hpt d sr hi hp c hc.1 hw.1 (ok_render g C hpt d c hc.1 hw.1)
+    · exact sepOpnd_renderAll g C hpt d sr hi hp cs hc.2 hw.2 x hx
 
 theorem ok_renderList (g : Grammar) (C : Compat g) (hpt : prefixNoTern g) (d : Dialect)
     (op : Op) (hi : op ∈ coreInfix) (lbp rbp : Nat) (hb : g.infixBp (symOf op) = some (lbp, rbp)) :
@@ -882,10 +1206,22 @@ theorem selfGroup_core (a : Op) (x : SaExpr) (hc : Core x = true) (hw : WG x = t
     | true_ => rcases hcol with h' | h' <;> simp_all [NonAtom]
     | false_ => rcases hcol with h' | h' <;> simp_all [NonAtom]
     | asbool e op n => simp [Core] at hc
-    | case_ v w e ty => simp [Core] at hc
-    | cast e ty => simp [Core] at hc
-    | func n a ty => simp [Core] at hc
-    | subq n ty => simp [Core] at hc
+    | case_ v w e ty =>
+      rcases hcol with h' | h'
+      · show Core (columnSelfGroup _ _) = true ∧ WG (columnSelfGroup _ _) = true ∧ wouldGroup _ (columnSelfGroup _ _) = false
+        rw [h']; exact ⟨hc, hw, hg'⟩
+      · simp [NonAtom] at h'
+    | cast e ty =>
+      rcases hcol with h' | h'
+      · show Core (columnSelfGroup _ _) = true ∧ WG (columnSelfGroup _ _) = true ∧ wouldGroup _ (columnSelfGroup _ _) = false
+        rw [h']; exact ⟨hc, hw, hg'⟩
+      · simp [NonAtom] at h'
+    | func n a ty =>
+      rcases hcol with h' | h'
+      · show Core (columnSelfGroup _ _) = true ∧ WG (columnSelfGroup _ _) = true ∧ wouldGroup _ (columnSelfGroup _ _) = false
+        rw [h']; exact ⟨hc, hw, hg'⟩
+      · simp [NonAtom] at h'
+    | subq n ty => exact ⟨hc, hw, hg'⟩
     | inlist v ty eo => simp [Core] at hc
     | inrows r n eo => simp [Core] at hc
     | tuple_ es => simp [Core] at hc
@@ -965,10 +1301,23 @@ theorem lower_core : ∀ e : SaExpr, Core e = true → lower e = e
     simp only [Core, Bool.and_eq_true] at hc
     simp only [lower, lowerList_core cs hc.2]
   | .asbool _ _ _, hc => by simp [Core] at hc
-  | .case_ _ _ _ _, hc => by simp [Core] at hc
-  | .cast _ _, hc => by simp [Core] at hc
-  | .func _ _ _, hc => by simp [Core] at hc
-  | .subq _ _, hc => by simp [Core] at hc
+  | .case_ v ws e ty, hc => by
+    simp only [Core, Bool.and_eq_true, Bool.or_eq_true] at hc
+    obtain ⟨⟨⟨⟨hcv, hcw⟩, _⟩, _⟩, hce⟩ := hc
+    have hv : lower v = v := by
+      rcases hcv with h | h
+      · cases v <;> simp [isAbsent] at h; rfl
+      · exact lower_core v h
+    have he : lower e = e := by
+      rcases hce with h | h
+      · cases e <;> simp [isAbsent] at h; rfl
+      · exact lower_core e h
+    simp only [lower, hv, he, lowerList_core ws hcw]
+  | .cast e ty, hc => by
+    simp only [lower, lower_core e (by simpa [Core] using hc)]
+  | .func n args ty, hc => by
+    simp only [lower, lowerList_core args (by simp only [Core, Bool.and_eq_true] at hc; exact hc.2)]
+  | .subq _ _, _ => rfl
   | .inlist _ _ _, hc => by simp [Core] at hc
   | .inrows _ _ _, hc => by simp [Core] at hc
   | .tuple_ _, hc => by simp [Core] at hc
